@@ -56,6 +56,30 @@ impl RngCore for VerifRng {
     }
 }
 
+// The call goes through an adapter that accepts either calling convention of the bootstrap function, so that a change of its
+// SIGNATURE does not turn every harness into "does not compile" (= inconclusive):
+//   (y: &[usize], num_classes: usize, rng)   the stratified sampler of the unchanged tree: called exactly as before;
+//   (nrows: usize, rng)                       a sampler that is not even told the labels (the regressor's convention): called
+//                                             with y.len(); the obligations below are the same, so a sampler that ignores the
+//                                             classes is a VIOLATION of "stratified", with a concrete draw sequence.
+// The marker parameter only selects the impl from the function's own signature (no runtime behaviour).
+trait VerifSampler<Marker> {
+    fn verif_call(&self, y: &[usize], k: usize, rng: &mut VerifRng) -> Vec<usize>;
+}
+impl<F: Fn(&[usize], usize, &mut VerifRng) -> Vec<usize>> VerifSampler<(u8, u8, u8)> for F {
+    fn verif_call(&self, y: &[usize], k: usize, rng: &mut VerifRng) -> Vec<usize> {
+        self(y, k, rng)
+    }
+}
+impl<F: Fn(usize, &mut VerifRng) -> Vec<usize>> VerifSampler<(u8, u8)> for F {
+    fn verif_call(&self, y: &[usize], _k: usize, rng: &mut VerifRng) -> Vec<usize> {
+        self(y.len(), rng)
+    }
+}
+fn verif_draw<Marker, S: VerifSampler<Marker>>(s: S, y: &[usize], k: usize, rng: &mut VerifRng) -> Vec<usize> {
+    s.verif_call(y, k, rng)
+}
+
 macro_rules! sample_harness {
     ($name:ident, $n:expr, $k:expr, $y:expr, $unw:expr) => {
         #[kani::proof]
@@ -85,7 +109,7 @@ macro_rules! sample_harness {
             }
             let mut rng = VerifRng { ranges, pos: 0 };
 
-            let samples = RandomForestClassifier::<f64>::sample_with_replacement(&y, K, &mut rng);
+            let samples = verif_draw(RandomForestClassifier::<f64>::sample_with_replacement, &y, K, &mut rng);
 
             assert!(
                 samples.len() == N,
